@@ -50,7 +50,7 @@ func (f *Unless) Call(s *slip.Scope, args slip.List, depth int) (result slip.Obj
 	result = nil
 	d2 := depth + 1
 	pos := 0
-	test := slip.EvalArg(s, args, pos, d2)
+	test := slip.PrimaryValue(slip.EvalArg(s, args, pos, d2))
 	if slip.IsExit(test) {
 		return test
 	}
